@@ -1,2 +1,68 @@
-(* C14 -- statement file *)
-From SV Require Import Filt.Text.
+(* C14 -- filter text is parsed as RFC 4515 defines it. *)
+From Coq Require Import ZArith NArith List Bool.
+From Coq.Strings Require Import Byte.
+From SV Require Import Base.Bytes Base.Py Rx.Syntax Gen.Generated Msg.Types Msg.Encode Msg.Rfc Msg.RfcConform
+  Filt.Text Filt.Value Filt.Simple Filt.RoundTrip Filt.Grammar.
+Import ListNotations.
+
+(* [sent f t]: t is a sentence of the RFC 4515 section 3 grammar denoting the tree f --
+     filter = "(" filtercomp ")",  filtercomp = and / or / not / item,  filterlist = 1*filter,
+     item = simple / present / substring / extensible,
+     value = *( normal / "\" hex hex ) with normal = any octet except NUL ( ) * \ (so raw UTF-8 and
+     control octets are values) and hex digits in EITHER case, empty values included,
+     attribute descriptions / matching rules = what the generated _ATTRIBUTE_PATTERN accepts
+     (descr or numericoid, with options) --
+   decorated with the spaces the library tolerates: after "(", after the & | ! operator and after each
+   filter of a list.  ([vtext], [vform], [sent] in Filt/Grammar.v.)
+   For every such sentence the parser returns exactly the tree, within the recursion budget. *)
+Theorem C14_every_sentence_parses_to_its_tree :
+  forall d f t, sent f t -> (tdepth f <= d)%nat -> from_bytes d t = FOk f.
+Proof. exact from_bytes_sentence. Qed.
+
+(* also inside surrounding text, consuming exactly the sentence *)
+Theorem C14_sentence_in_context :
+  forall d f t, sent f t -> (tdepth f <= d)%nat ->
+  forall pre post junk,
+  unpack_filter d (pre ++ (t ++ post) ++ junk) (zlen pre) (zlen (t ++ post)) = FOk (f, zlen t).
+Proof. exact sentence_parse. Qed.
+
+(* values: every text of the value grammar denotes the octets the unescaper returns *)
+Theorem C14_value_grammar : forall v t off len, vtext v t -> unpack_value t off len = FOk v.
+Proof. exact unpack_value_vtext. Qed.
+
+(* and the octets then sent in a SearchRequest are the RFC 4511 encoding of that tree *)
+Theorem C14_encoded_as_rfc4511 :
+  forall d f t, sent f t -> (tdepth f <= d)%nat ->
+  exists g, from_bytes d t = FOk g /\ g = f /\ enc_filter g = ser (r_filter g).
+Proof.
+  intros d f t S Hd. exists f. split; [now apply from_bytes_sentence|]. split; [reflexivity|apply filter_is_rfc].
+Qed.
+
+(* what __str__ writes is one sentence of the grammar (C13 is this instance) *)
+Theorem C14_str_is_a_sentence : forall f, wf_tfilter f -> sent f (print_filter f).
+Proof. exact print_is_sentence. Qed.
+
+(* non-vacuity: upper-case hex, raw UTF-8 (c3 a9), raw control octet, spaces in all tolerated places *)
+Example C14_example :
+  let t := [c_lp; c_sp; c_amp; c_sp; c_sp] ++
+           ([c_lp; x63; x6e; c_eq; c_bs; x32; x41; xc3; xa9; x01; c_rp] ++ [c_sp]) ++
+           ([c_lp; c_sp; c_bang; c_lp; x6f; c_eq; c_star; x61; c_star; c_rp; c_sp; c_rp] ++ []) ++ [c_rp] in
+  from_bytes 5 t = FOk (FAnd [FEq [x63; x6e] [x2a; xc3; xa9; x01]; FNot (FSub [x6f] None [[x61]] None)]).
+Proof. vm_compute. reflexivity. Qed.
+
+Example C14_example_is_sentence :
+  sent (FEq [x63; x6e] [x2a; xc3; xa9; x01]) [c_lp; x63; x6e; c_eq; c_bs; x32; x41; xc3; xa9; x01; c_rp].
+Proof.
+  change [c_lp; x63; x6e; c_eq; c_bs; x32; x41; xc3; xa9; x01; c_rp]
+    with ([c_lp] ++ [] ++ (hdr_of (FEq [x63; x6e] [x2a; xc3; xa9; x01]) ++ [c_eq] ++ [c_bs; x32; x41; xc3; xa9; x01]) ++ [c_rp]).
+  apply s_simple; [reflexivity|constructor; vm_compute; reflexivity| |constructor].
+  constructor. change x2a with (n2b (2 * 16 + 10)).
+  apply vt_esc; [split; vm_compute; reflexivity|split; vm_compute; reflexivity|].
+  repeat (apply vt_raw; [vm_compute; reflexivity|]). constructor.
+Qed.
+
+Print Assumptions C14_every_sentence_parses_to_its_tree.
+Print Assumptions C14_sentence_in_context.
+Print Assumptions C14_value_grammar.
+Print Assumptions C14_encoded_as_rfc4511.
+Print Assumptions C14_str_is_a_sentence.
